@@ -13,7 +13,7 @@ TRUSTED = [
     "runtime behaviour of extreme durations on real sockets / ureq is exercised here only through set_read_timeout / set_write_timeout (partial)",
 ]
 RULE = ("(read, write, connect) in {None, 0, 1 ns, 1 ms, 1 s, u64::MAX s}^3 x retries in {0, 1, 2, usize::MAX-1, usize::MAX} x construction path {new, Default, clap flags, serde}, "
-        "clap flag texts from {absent, 0, 00, +0, 1, +7, 4, 18446744073709551615, 18446744073709551616, empty, x, 1.5, ' 3'}; each accepted setting is then used for a Valve query on a valid reply script, those with an extreme duration also by an HTTP-based query (Eco) against a closed port "
+        "clap flag texts from {absent, 0, 00, +0, 1, +7, 4, 18446744073709551615, 18446744073709551616, empty, x, 1.5, ' 3'}; each accepted setting is then used for a Valve query on a valid reply script, six accepted settings with nanosecond / largest durations and the largest retry counts also for Unreal 2 (three gather settings), Quake 3 and GameSpy 1 / 2 / 3 queries on valid reply scripts, those with an extreme duration also by an HTTP-based query (Eco) against a closed port "
         "(and, for small retry counts, on a silent one; for the largest counts also on a script whose first attempt times out or fails to send); non-trivial = a zero duration or an extreme value is involved; distinct by case bytes")
 
 DURS = [None, (0, 0), (0, 1), (0, 1000000), (1, 0), (18446744073709551615, 0), (18446744073709551615, 999999999)]
@@ -78,6 +78,7 @@ def gen_cases(tier, rng):
             hexcase = (bytes([53]) + enc_dur(rd) + enc_dur(wr) + enc_dur(co) + (0).to_bytes(8, "big")).hex()
             cases.append({"id": "http/%d" % n, "hex": hexcase, "meta": {"stream": "http-client", "expect": "accept", "valid": False, "extreme": True, "http": True}})
             n += 1
+    cases += other_protocol_rows(tier, rng)
     cases.append({"id": "default", "hex": settings_case(bytes([1]), port, valid), "meta": {"stream": "default", "expect": "accept", "valid": True, "extreme": False}})
     texts = TEXTS if tier != "quick" else TEXTS
     for c, rdt, wrt in itertools.product(texts, repeat=3):
@@ -101,6 +102,44 @@ def gen_cases(tier, rng):
     return cases
 
 
+EXTREME_TS = [
+    {"connect": (0, 1), "read": (0, 1), "write": (0, 1), "retries": 0},
+    {"connect": None, "read": (0, 1), "write": None, "retries": 2},
+    {"connect": (0, 1000000), "read": (0, 1000000), "write": (0, 1), "retries": 1},
+    {"connect": (18446744073709551615, 0), "read": (18446744073709551615, 999999999), "write": (18446744073709551615, 0), "retries": 18446744073709551615},
+    {"connect": (1, 0), "read": None, "write": (0, 1), "retries": 18446744073709551614},
+    {"connect": None, "read": None, "write": None, "retries": 2},
+]
+
+
+def other_protocol_rows(tier, rng):
+    """accepted settings with nanosecond / largest durations and the largest retry counts, used by the other protocol entry points
+    (Unreal 2 with and without its optional sections, Quake 3, GameSpy 1 / 2 / 3) on a valid reply script"""
+    from u2_common import u2_specs, u2_case
+    from quake_common import quake_specs, quake_case
+    from gs_common import gs_specs, gs_case
+    r = rng.fork("c18-protocols")
+    out = []
+    k = 2 if tier == "quick" else 12
+    seeds = [r.next() >> 1 for _ in range(k)]
+    rows = []
+    for gather in ((1, 1), (2, 2), (0, 1)):
+        for sp in u2_specs(seeds, gather):
+            rows.append(("unreal2", lambda ts, sp=sp, gather=gather: u2_case(7778, gather, ts, sp["events"])))
+    for sp in quake_specs([(x, 3) for x in seeds]):
+        if sp["expected"].startswith("Some("):
+            rows.append(("quake3", lambda ts, sp=sp: quake_case(27960, 3, ts, [sp["dg"]])))
+    for ver in (1, 2, 3):
+        for sp in gs_specs(ver, seeds):
+            if sp["fits"]:
+                rows.append(("gamespy%d" % ver, lambda ts, sp=sp, ver=ver: gs_case(ver, 7777, 0, ts, sp["events"])))
+    for i, (proto, mk) in enumerate(rows):
+        for j, ts in enumerate(EXTREME_TS):
+            out.append({"id": "proto/%s/%d/%d" % (proto, i, j), "hex": mk(ts),
+                        "meta": {"stream": "other-protocols", "proto": proto, "expect": "accept", "valid": True, "extreme": True}})
+    return out
+
+
 def oracle(case, impl, side):
     m = case["meta"]
     if impl is None:
@@ -108,6 +147,11 @@ def oracle(case, impl, side):
     if "PANIC" in impl or impl == "ABORT":
         loc = side.split("panicked at ")[-1].split(":")[0] if "panicked at " in side else "?"
         return ("panic:" + loc, "an accepted configuration panicked when used (%s): %s" % (side[:200], impl[:120]))
+    if m.get("proto"):
+        res = split_result(impl)[0] or ""
+        if not res.startswith("Ok("):
+            return ("query-failed:" + m["proto"], "%s query with accepted settings on a valid reply failed: %s" % (m["proto"], impl[:200]))
+        return None
     if m.get("http"):
         if not impl.startswith("Ok(settings);Err("):
             return ("http-client", "accepted settings used by an HTTP query against a closed port: %s" % impl[:200])
